@@ -31,6 +31,7 @@ import (
 	"path/filepath"
 	"regexp"
 	"runtime"
+	"runtime/debug"
 	"runtime/metrics"
 	"sort"
 	"strconv"
@@ -505,7 +506,14 @@ func ChildLoop(spec ChildSpec) error {
 		if spec.RlimitBytes > 0 {
 			as = spec.RlimitBytes
 		}
+		// keep the collector from letting the heap (which holds the case list) drift into the head-room
+		debug.SetGCPercent(50)
 		runtime.GC()
+		memSample := []metrics.Sample{{Name: "/memory/classes/total:bytes"}}
+		metrics.Read(memSample)
+		if memSample[0].Value.Kind() == metrics.KindUint64 {
+			debug.SetMemoryLimit(int64(memSample[0].Value.Uint64() + as/2))
+		}
 		vs := vmSize()
 		journal(fmt.Sprintf("V %d\n", vs))
 		lim := syscall.Rlimit{Cur: vs + as, Max: vs + as}
